@@ -651,7 +651,13 @@ pub fn run_c01(a: &Args, shared: &SharedReport) {
 
 fn c02_spaces(th: bool) -> Vec<Space> {
     if th {
-        vec![Space { ns: vec![1, 2, 3], ignored: true, dups: false, init_orders: false, single_init: false, boundaries: b_few, max_edges: None }]
+        // ~5M checker runs (the kernel sustains ~8k/s): n<=2 with every option, n=3 all edge sets x all init
+        // subsets x 4 boundaries, n=3 with ignored actions for one init state
+        vec![
+            Space { ns: vec![1, 2], ignored: true, dups: true, init_orders: true, single_init: false, boundaries: b_all, max_edges: None },
+            Space { ns: vec![3], ignored: false, dups: false, init_orders: false, single_init: false, boundaries: b_few, max_edges: None },
+            Space { ns: vec![3], ignored: true, dups: false, init_orders: false, single_init: true, boundaries: b_full, max_edges: None },
+        ]
     } else {
         vec![
             Space { ns: vec![1, 2], ignored: true, dups: false, init_orders: true, single_init: false, boundaries: b_all, max_edges: None },
@@ -681,7 +687,7 @@ pub fn run_c02(a: &Args, shared: &SharedReport) {
             for m1 in 0..nm {
                 for m2 in 0..nm {
                     let mut variants: Vec<Vec<(Expectation, u8)>> = vec![vec![(Expectation::Always, m1 as u8), (Expectation::Sometimes, m2 as u8)]];
-                    if th && (m1 + m2) % 3 == 0 {
+                    if th && (m1 + m2) % 5 == 0 {
                         // a violated/held always, a sometimes, and a never-witnessed sometimes: the search must go on
                         variants.push(vec![(Expectation::Sometimes, m2 as u8), (Expectation::Always, m1 as u8), (Expectation::Sometimes, 0)]);
                     }
@@ -697,7 +703,7 @@ pub fn run_c02(a: &Args, shared: &SharedReport) {
                                 // blocks of one state: the worker goes back to the market after every state
                                 run.case(&m, &orc, &Config { block: Some(1), ..Config::plain(st.clone()) }, None);
                             }
-                            if th && (m1 * 7 + m2) % 4 == 0 {
+                            if th && (m1 * 7 + m2) % 16 == 0 {
                                 for t in [2usize, 3] {
                                     run.case(&m, &orc, &Config { threads: t, block: Some(1), ..Config::plain(st.clone()) }, None);
                                 }
@@ -719,7 +725,9 @@ pub fn run_c13(a: &Args, shared: &SharedReport) {
     }
     let run = Runner { shared, checks: vec!["c13", "c03"] };
     let mut spaces = if th {
-        vec![Space { ns: vec![1, 2, 3], ignored: true, dups: true, init_orders: true, single_init: false, boundaries: b_all, max_edges: None }]
+        vec![Space { ns: vec![1, 2], ignored: true, dups: true, init_orders: true, single_init: false, boundaries: b_all, max_edges: None },
+             Space { ns: vec![3], ignored: false, dups: false, init_orders: true, single_init: false, boundaries: b_few, max_edges: None },
+             Space { ns: vec![3], ignored: true, dups: false, init_orders: false, single_init: true, boundaries: b_few, max_edges: None }]
     } else {
         vec![Space { ns: vec![1, 2], ignored: true, dups: true, init_orders: true, single_init: false, boundaries: b_all, max_edges: None },
              Space { ns: vec![3], ignored: false, dups: false, init_orders: false, single_init: false, boundaries: b_c13, max_edges: None }]
@@ -737,7 +745,7 @@ pub fn run_c13(a: &Args, shared: &SharedReport) {
             }
             for m1 in 0..nm {
                 // sometimes-mask: complement rotated, so that both props select different witnesses
-                let m2s: Vec<u32> = if th || n < 3 { (0..nm).collect() } else { vec![(!m1 & (nm - 1)).rotate_left(1) % nm] };
+                let m2s: Vec<u32> = if n < 3 { (0..nm).collect() } else if th { vec![(!m1 & (nm - 1)).rotate_left(1) % nm, m1, (m1 * 5 + 3) % nm] } else { vec![(!m1 & (nm - 1)).rotate_left(1) % nm] };
                 for m2 in m2s {
                     let m = GraphModel { props: vec![(Expectation::Always, m1 as u8), (Expectation::Sometimes, m2 as u8), (Expectation::Sometimes, 0)], ..core.clone() };
                     run.case(&m, &orc, &Config::plain(Strategy::Bfs), None);
@@ -798,7 +806,11 @@ fn run_eventually(a: &Args, shared: &SharedReport, checks: Vec<&'static str>, wi
     let th = thorough(a);
     let run = Runner { shared, checks };
     let spaces = if th {
-        vec![Space { ns: vec![1, 2, 3], ignored: true, dups: false, init_orders: false, single_init: false, boundaries: b_all, max_edges: None }]
+        vec![
+            Space { ns: vec![1, 2], ignored: true, dups: true, init_orders: true, single_init: false, boundaries: b_all, max_edges: None },
+            Space { ns: vec![3], ignored: false, dups: false, init_orders: false, single_init: false, boundaries: b_few, max_edges: None },
+            Space { ns: vec![3], ignored: true, dups: false, init_orders: false, single_init: true, boundaries: b_few, max_edges: None },
+        ]
     } else {
         vec![
             Space { ns: vec![1, 2], ignored: true, dups: true, init_orders: true, single_init: false, boundaries: b_all, max_edges: None },
@@ -815,9 +827,12 @@ fn run_eventually(a: &Args, shared: &SharedReport, checks: Vec<&'static str>, wi
             }
             let mut idx = 0u32;
             for ma in 0..nm {
-                let mbs: Vec<u32> = if th { vec![(ma * 3 + 1) % nm, !ma & (nm - 1)] } else { vec![(ma * 3 + 1) % nm] };
+                let mbs: Vec<u32> = if th && n < 3 { vec![(ma * 3 + 1) % nm, !ma & (nm - 1)] } else { vec![(ma * 3 + 1) % nm] };
                 for mb in mbs {
                     for (pi, props) in eventually_propsets(n, ma as u8, mb as u8, th).into_iter().enumerate() {
+                        if th && n == 3 && (pi as u32 + ma) % 2 == 1 {
+                            continue;
+                        }
                         if !th && n == 3 && (pi as u32 + ma) % 2 == 1 {
                             // quick: alternate the two property sets over the masks at n=3
                             continue;
@@ -830,7 +845,7 @@ fn run_eventually(a: &Args, shared: &SharedReport, checks: Vec<&'static str>, wi
                         }
                         for st in &strategies {
                             run.case(&m, &orc, &Config::plain(st.clone()), None);
-                            if th && idx % 3 == 0 {
+                            if th && idx % 8 == 0 {
                                 for t in [2usize, 3] {
                                     run.case(&m, &orc, &Config { threads: t, block: Some(1), ..Config::plain(st.clone()) }, None);
                                 }
@@ -850,8 +865,8 @@ fn run_eventually(a: &Args, shared: &SharedReport, checks: Vec<&'static str>, wi
                             }
                         }
                         // simulation: soundness only
-                        let seeds = if th { 32 } else if idx % 4 == 0 { 4 } else { 1 };
-                        for st in sim_strategies(&m, seeds, idx % (if th { 8 } else { 64 }) == 1) {
+                        let seeds = if th { if idx % 8 == 0 { 32 } else { 2 } } else if idx % 4 == 0 { 4 } else { 1 };
+                        for st in sim_strategies(&m, seeds, idx % (if th { 32 } else { 64 }) == 1) {
                             run.case(&m, &orc, &Config { target_states: Some(12), ..Config::plain(st.clone()) }, None);
                             if with_limits && idx % 4 == 0 {
                                 run.case(&m, &orc, &Config { target_states: Some(12), finish: Finish::Any, threads: 2, ..Config::plain(st.clone()) }, None);
@@ -875,7 +890,7 @@ pub fn run_c03(a: &Args, shared: &SharedReport) {
     // always/sometimes witnesses under every finish condition
     let th = thorough(a);
     let run = Runner { shared, checks: vec!["c03"] };
-    let sp = Space { ns: vec![2, 3], ignored: th, dups: false, init_orders: false, single_init: !th, boundaries: b_few, max_edges: None };
+    let sp = Space { ns: vec![2, 3], ignored: false, dups: false, init_orders: false, single_init: !th, boundaries: if th { b_c13 } else { b_few }, max_edges: None };
     for_each_core(&sp, a.shard, a.nshards, |core| {
         let n = core.n();
         let nm = 1u32 << n;
@@ -927,8 +942,10 @@ pub fn run_c12_graphs(a: &Args, shared: &SharedReport) {
     let th = thorough(a);
     let run = Runner { shared, checks: vec!["c12"] };
     let spaces = if th {
-        vec![Space { ns: vec![1, 2, 3], ignored: true, dups: false, init_orders: false, single_init: false, boundaries: b_few, max_edges: None },
-             Space { ns: vec![4], ignored: false, dups: false, init_orders: false, single_init: true, boundaries: b_full, max_edges: Some(5) }]
+        vec![Space { ns: vec![1, 2], ignored: true, dups: false, init_orders: false, single_init: false, boundaries: b_all, max_edges: None },
+             Space { ns: vec![3], ignored: false, dups: false, init_orders: false, single_init: false, boundaries: b_c13, max_edges: None },
+             Space { ns: vec![3], ignored: true, dups: false, init_orders: false, single_init: true, boundaries: b_full, max_edges: None },
+             Space { ns: vec![4], ignored: false, dups: false, init_orders: false, single_init: true, boundaries: b_full, max_edges: Some(4) }]
     } else {
         vec![Space { ns: vec![2], ignored: true, dups: false, init_orders: false, single_init: false, boundaries: b_all, max_edges: None },
              Space { ns: vec![3], ignored: false, dups: false, init_orders: false, single_init: true, boundaries: b_few, max_edges: None },
@@ -960,7 +977,7 @@ pub fn run_c12_graphs(a: &Args, shared: &SharedReport) {
                 }
             }
             // (ii): finish conditions
-            let step = if th { 1 } else { 3 };
+            let step = if th { 2 } else { 3 };
             let mut fi = 0usize;
             for m1 in (0..nm).step_by(step) {
                 for m2 in (0..nm).step_by(step) {
@@ -968,7 +985,7 @@ pub fn run_c12_graphs(a: &Args, shared: &SharedReport) {
                     for st in [Strategy::Bfs, Strategy::Dfs, Strategy::OnDemand] {
                         let all = [Finish::Any, Finish::AnyFailures, Finish::AllFailures, Finish::AllOf(vec![0, 1]), Finish::AnyOf(vec![1, 2]), Finish::AllOf(vec![]), Finish::AnyOf(vec![])];
                         fi += 1;
-                        let chosen: Vec<Finish> = if th { all.to_vec() } else { vec![all[fi % 7].clone(), all[(fi + 3) % 7].clone()] };
+                        let chosen: Vec<Finish> = if th { vec![all[fi % 7].clone(), all[(fi + 2) % 7].clone(), all[(fi + 4) % 7].clone()] } else { vec![all[fi % 7].clone(), all[(fi + 3) % 7].clone()] };
                         for f in chosen {
                             run.case(&m, &orc, &Config { finish: f.clone(), block: Some(1), ..Config::plain(st.clone()) }, None);
                             if th {
